@@ -51,7 +51,7 @@ def main(argv):
         for f in corpus_flags: lines += run_harness(v, ['flags', f], seed)
         for f in corpus_text: lines += run_harness(v, ['text', f], seed)
         if not replay:
-            n = {'quick': (160, 2500, 3000), 'thorough': (5000, 60000, 80000)}[tier if tier in ('quick', 'thorough') else 'quick']
+            n = {'quick': (64, 1500, 2000), 'thorough': (1500, 30000, 40000)}[tier if tier in ('quick', 'thorough') else 'quick']
             lines += run_harness(v, ['labels', n[0]], seed) + run_harness(v, ['parse', n[1]], seed) + run_harness(v, ['elab', n[2]], seed)
         for l in lines:
             parts = l.split('\t')
@@ -83,7 +83,7 @@ def main(argv):
         order = sorted(range(len(cases)), key=lambda i: kinds[i] != 'LABELS')
         big = [i for i in order if kinds[i] == 'LABELS']; small = [i for i in order if kinds[i] != 'LABELS']
         mism_all, errs_all = [], []
-        for name, idxs, sh_ in (('labels', big, 12 if tier == 'quick' else 100), ('small', small, 400 if tier == 'quick' else 4000)):
+        for name, idxs, sh_ in (('labels', big, 6 if tier == 'quick' else 100), ('small', small, 300 if tier == 'quick' else 4000)):
             if not idxs: continue
             mism, errs = coq_eval_cases(PROP + name, IMPORTS, 'c14case', [cases[i] for i in idxs], shard=sh_)
             mism_all += [idxs[i] for i in mism]; errs_all += errs
